@@ -2,6 +2,7 @@ package main
 
 import (
 	"fmt"
+	restful "github.com/emicklei/go-restful/v3"
 	"strings"
 	"sync/atomic"
 
@@ -186,7 +187,7 @@ func c17Probe(t rm.Table, r rm.Router, base h.Req, methods []string, reuse bool)
 // c17AfterRemoval: OPTIONS is served for the URL first (whatever the container memoises while
 // serving must not survive a change of its routes), then the only route of the table is removed
 // (dynamic routes) from the filtered container and its filter-less twin, then every method is probed.
-func c17AfterRemoval(t rm.Table, r rm.Router, base h.Req, methods []string) ([]rs.Outcome, []rs.Outcome, []map[string][]string, bool) {
+func c17AfterRemoval(t rm.Table, r rm.Router, base h.Req, methods []string, replace bool) ([]rs.Outcome, []rs.Outcome, []map[string][]string, bool) {
 	bp := rs.Build(t, rs.BuildOpt{Router: r, Dynamic: true})
 	bf := rs.Build(t, rs.BuildOpt{Router: r, Options: true, Dynamic: true})
 	if bp.Panic != "" || bf.Panic != "" || len(bf.WS) != 1 || len(bf.WS[0].Routes()) != 1 {
@@ -196,10 +197,26 @@ func c17AfterRemoval(t rm.Table, r rm.Router, base h.Req, methods []string) ([]r
 	q.Method = "OPTIONS"
 	bf.Do(q.HTTP(), h.NewRec(), false)
 	bp.Do(q.HTTP(), h.NewRec(), false)
+	if replace {
+		// traffic on every method first; then the route is replaced by one with another method on the
+		// same path, with no request between the RemoveRoute and the Route (the route count is the same again)
+		for _, m := range methods {
+			q.Method = m
+			bf.Do(q.HTTP(), h.NewRec(), false)
+			bp.Do(q.HTTP(), h.NewRec(), false)
+		}
+	}
 	for _, b := range []*rs.Built{bp, bf} {
 		rt := b.WS[0].Routes()[0]
 		if err := b.WS[0].RemoveRoute(rt.Path, rt.Method); err != nil {
 			return nil, nil, nil, false
+		}
+		if replace {
+			m2 := "PUT"
+			if rt.Method == "PUT" {
+				m2 = "GET"
+			}
+			b.WS[0].Route(b.WS[0].Method(m2).Path(t.Svcs[0].Routes[0].Sub).To(func(req *restful.Request, resp *restful.Response) {}))
 		}
 	}
 	var plain, filt []rs.Outcome
@@ -226,12 +243,14 @@ func replayC17(rc routingCase, o rs.Outcome) error {
 	if len(res) > 0 {
 		return fmt.Errorf("%s", res[0].why)
 	}
-	if pl, fl, hd, ok := c17AfterRemoval(rc.Table, r, rc.Req, c17Methods); ok {
-		for i, m := range c17Methods {
-			fmt.Printf("after RemoveRoute: %-8s plain: %-30s with OPTIONS filter: %s %v\n", m, pl[i].Key(), fl[i].Key(), hd[i])
-		}
-		if res := judgeURL(rm.Parse(rc.Table), rc.Req.Path(), r, c17Methods, pl, fl, hd); len(res) > 0 {
-			return fmt.Errorf("after RemoveRoute of the only route: %s", res[0].why)
+	for _, replace := range []bool{false, true} {
+		if pl, fl, hd, ok := c17AfterRemoval(rc.Table, r, rc.Req, c17Methods, replace); ok {
+			for i, m := range c17Methods {
+				fmt.Printf("after RemoveRoute (replaced by another method: %v): %-8s plain: %-30s with OPTIONS filter: %s %v\n", replace, m, pl[i].Key(), fl[i].Key(), hd[i])
+			}
+			if res := judgeURL(rm.Parse(rc.Table), rc.Req.Path(), r, c17Methods, pl, fl, hd); len(res) > 0 {
+				return fmt.Errorf("after RemoveRoute of the only route (replaced: %v): %s", replace, res[0].why)
+			}
 		}
 	}
 	return nil
@@ -288,15 +307,18 @@ func checkC17(run *h.Run) {
 					}
 					if some && sp.Name == "P1" && len(t.Svcs) == 1 && len(t.Svcs[0].Routes) == 1 {
 						// the same URL again after the route was removed from a container that has already served it
-						if pl, fl, hd, ok := c17AfterRemoval(t, router, w.reqs[base], c17Methods); ok {
-							disp += int64(2 * nm)
-							for _, res := range judgeURL(p, path, router, c17Methods, pl, fl, hd) {
-								rc := routingCase{Sweep: sp.Name, Router: router.String(), Table: t, Req: w.reqs[base]}
-								base := base
-								run.Violate("allow-mismatch-after-route-removal/"+router.String(), "", fmt.Sprintf("[%s] %v, OPTIONS served, then the route removed : %s", router, t, res.why), rc, func() bool {
-									pl, fl, hd, ok := c17AfterRemoval(t, router, w.reqs[base], c17Methods)
-									return ok && len(judgeURL(p, path, router, c17Methods, pl, fl, hd)) > 0
-								})
+						for _, replace := range []bool{false, true} {
+							replace := replace
+							if pl, fl, hd, ok := c17AfterRemoval(t, router, w.reqs[base], c17Methods, replace); ok {
+								disp += int64(2 * nm)
+								for _, res := range judgeURL(p, path, router, c17Methods, pl, fl, hd) {
+									rc := routingCase{Sweep: sp.Name, Router: router.String(), Table: t, Req: w.reqs[base]}
+									base := base
+									run.Violate("allow-mismatch-after-route-removal/"+router.String(), "", fmt.Sprintf("[%s] %v, OPTIONS served, then the route removed (replaced by another method: %v) : %s", router, t, replace, res.why), rc, func() bool {
+										pl, fl, hd, ok := c17AfterRemoval(t, router, w.reqs[base], c17Methods, replace)
+										return ok && len(judgeURL(p, path, router, c17Methods, pl, fl, hd)) > 0
+									})
+								}
 							}
 						}
 					}
@@ -318,7 +340,7 @@ func checkC17(run *h.Run) {
 	run.Cov["evaluations"] = disp
 	run.Cov["distinct_nontrivial"] = nontriv
 	run.Cov["exhaustive"] = true
-	run.Cov["rule"] = "E1: every table of 1-2 routes (thorough: also 3) over literal / plain-variable tokens and nested literal roots x every URL of <= 3 segments; a state is one (table, URL) with one probe per method in {GET, POST, PUT, OPTIONS, DELETE} on a container with the OPTIONS filter and on a filter-less twin; routable(URL) is measured on the twin. P2r: the two-route tables whose routes share a service, the second route declared by using the first route's RouteBuilder again. P1 tables again with dynamic routes: OPTIONS served, the route removed, every method probed again (nothing memoised may survive). P3s: every 3-route table over one root, sub-paths {'', /, /a, /{x}} and three methods. MX: 2-3 routes on one template in every order over extension methods whose names contain one another (LOCK/UNLOCK, PATCH/PROPPATCH). Non-trivial: some method is not answered 404."
+	run.Cov["rule"] = "E1: every table of 1-2 routes (thorough: also 3) over literal / plain-variable tokens and nested literal roots x every URL of <= 3 segments; a state is one (table, URL) with one probe per method in {GET, POST, PUT, OPTIONS, DELETE} on a container with the OPTIONS filter and on a filter-less twin; routable(URL) is measured on the twin. P2r: the two-route tables whose routes share a service, the second route declared by using the first route's RouteBuilder again. P1 tables again with dynamic routes: OPTIONS served, the route removed, every method probed again (nothing memoised may survive); and once more with traffic on every method first and the route then replaced by one with another method on the same path, no request in between. P3s: every 3-route table over one root, sub-paths {'', /, /a, /{x}} and three methods. MX: 2-3 routes on one template in every order over extension methods whose names contain one another (LOCK/UNLOCK, PATCH/PROPPATCH). Non-trivial: some method is not answered 404."
 	run.Assume = []string{"routable(URL) is measured, not modelled: {m | status(m, URL) not in {404, 405}} on the filter-less twin"}
 }
 
